@@ -12,7 +12,7 @@ HMM = 'tracklib.algo.dynamics.HMM'
 EXPLANATION = (
     'Static analysis by interpretation of the source (nothing imported or executed by CPython): the decoder is walked by tlint.orders in plain and log mode; the decoded sequence must consist of candidate states of each epoch and attain the maximum joint likelihood found by enumeration, the cost recorded at the last epoch must be the optimal cost, and the model functions must only be asked for states / observations of the right epoch.')
 ASSUMPTIONS = ["the optimum of the recurrence is the optimum over sequences (textbook induction, not re-proved)"]
-TECHNIQUE = "abstract interpretation of HMM.estimate / Qlog / Plog by the checker's AST interpreter on ~450 small models (every weak ordering of the four sequence costs of a 2x2 model, every sequence of three-epoch models with 1..3 states per epoch the unique optimum in turn, zero / one / tiny likelihoods, reuse of decoder and track), against enumeration of all state sequences (bounded case domain)"
+TECHNIQUE = "abstract interpretation of HMM.estimate / Qlog / Plog by the checker's AST interpreter on ~560 small models (every weak ordering of the four sequence costs of a 2x2 model, every sequence of three-epoch models with 1..3 states per epoch the unique optimum in turn, zero / one / tiny likelihoods, reuse of decoder and track, log switch given as 0 / 1 / numpy.bool_, the seven observation / position modes with multi-dimensional observations), against enumeration of all state sequences (bounded case domain)"
 
 
 def vr(v):
